@@ -144,6 +144,27 @@ def check_case(root, spec, fpat, epat, names, out, case_extra=None):
         out.violation(dict(case, problem='get_skipped() is not visited - returned', skipped=sk, visited=visited, returned=len(got)),
                       bucket=('skipped',))
         return None
+    # the same walk with a bytes root and bytes patterns (an empty pattern given as b'' and as None)
+    try:
+        with util.watchdog(15), util.ScandirCounter(6000):
+            for label, bf, be in (('bytes', os.fsencode(fpat), os.fsencode(epat)), ('bytes, empty patterns as None', os.fsencode(fpat) or None, os.fsencode(epat) or None)):
+                try:
+                    wb = WM.WcMatch(os.fsencode(root), bf, be, flags=fl)
+                    gotb = [os.path.relpath(os.fsdecode(p_), root) for p_ in wb.match()]
+                    skb = wb.get_skipped()
+                except util.HarnessBudget:
+                    raise
+                except Exception as e:
+                    gotb, skb = ['<%s>' % type(e).__name__], None
+                out.evaluations += 1
+                if collections.Counter(gotb) != collections.Counter(got) or skb != sk:
+                    out.violation(dict(case, problem='a bytes root (' + label + ') gives another result than the str root', got=sorted(gotb)[:12],
+                                       want=sorted(got)[:12], skipped=[skb, sk]), size=len(fpat) * 10 + len(epat) * 10 + len(names), bucket=('bytes-root', label))
+                    return None
+    except util.HarnessBudget:
+        out.stats['budget_skipped'] += 1
+    except UnicodeEncodeError:
+        pass
     # the same root spelled with a trailing separator, with `/.`, and as `.` from inside it
     try:
         with util.watchdog(15), util.ScandirCounter(6000):
